@@ -2,42 +2,47 @@
    dense-time offline monitor supports (None = an exception: prev / next / rise / fall / precedes, or
    'Unexpected case in the intersection').  Bounds are in ticks. *)
 From Coq Require Import List Bool Arith ZArith Lia.
-From RV Require Import Val Syntax Rho Online Dense DenseMerge DenseMergeG DenseEval DenseWin.
+From RV Require Import Val Syntax Rho Online Dense DenseMerge DenseMergeG DenseEval DenseWin DenseIA.
 Import ListNotations.
 Local Open Scope Z_scope.
 
 Section DenseVisitor.
 Context {VS : Val} (AR : Arith VS).
+(* the predicate kinds: PStd everywhere for the STL visitor, IA.pk_impl for the four IA-STL visitors *)
+Variable pk : formula -> formula -> pkind.
 
 (* None = an exception (operator outside the fragment modelled here, or 'Unexpected case in the intersection') *)
-Fixpoint deval (p : formula) (W : list dsig) {struct p} : option dsig :=
-  let bin f a b := obind (deval a W) (fun x => obind (deval b W) (fun y => isect f x y)) in
+Fixpoint deval_pk (p : formula) (W : list dsig) {struct p} : option dsig :=
+  let bin f a b := obind (deval_pk a W) (fun x => obind (deval_pk b W) (fun y => isect f x y)) in
   match p with
   | Var x => Some (nth x W [])
   | Const c => Some [(0, c)]
-  | A1 o f => option_map (dmap (a1 AR o)) (deval f W)
-  | Not f => option_map (dmap neg) (deval f W)
+  | A1 o f => option_map (dmap (a1 AR o)) (deval_pk f W)
+  | Not f => option_map (dmap neg) (deval_pk f W)
   | A2 o f g => bin (a2 AR o) f g
-  | Pred c f g => option_map (fun d => dedup (dmap (pred_of_diff AR c) d)) (bin (a2 AR Sub) f g)
+  | Pred c f g => option_map (ia_pred AR (pk f g) c) (bin (a2 AR Sub) f g)
   | And f g => bin vmin f g
   | Or f g => bin vmax f g
   | Implies f g => bin (fun l r => vmax (neg l) r) f g
   | Iff f g => bin (fun l r => neg (a1 AR Abs (a2 AR Sub l r))) f g
   | Xor f g => bin (fun l r => a1 AR Abs (a2 AR Sub l r)) f g
-  | Once f => option_map once_op (deval f W)
-  | Hist f => option_map hist_op (deval f W)
-  | Ev f => option_map ev_op (deval f W)
-  | Alw f => option_map alw_op (deval f W)
-  | Since f g => obind (deval f W) (fun x => obind (deval g W) (fun y => since_op x y))
-  | Until f g => obind (deval f W) (fun x => obind (deval g W) (fun y => until_op x y))
-  | OnceT b e f => obind (deval f W) (fun s => once_timed_op s (zb b) (zb e))
-  | HistT b e f => obind (deval f W) (fun s => hist_timed_op s (zb b) (zb e))
-  | EvT b e f => obind (deval f W) (fun s => ev_timed_op s (zb b) (zb e))
-  | AlwT b e f => obind (deval f W) (fun s => alw_timed_op s (zb b) (zb e))
-  | SinceT b e f g => obind (deval f W) (fun x => obind (deval g W) (fun y => since_timed_op x y (zb b) (zb e)))
-  | UntilT b e f g => obind (deval f W) (fun x => obind (deval g W) (fun y => until_timed_op x y (zb b) (zb e)))
+  | Once f => option_map once_op (deval_pk f W)
+  | Hist f => option_map hist_op (deval_pk f W)
+  | Ev f => option_map ev_op (deval_pk f W)
+  | Alw f => option_map alw_op (deval_pk f W)
+  | Since f g => obind (deval_pk f W) (fun x => obind (deval_pk g W) (fun y => since_op x y))
+  | Until f g => obind (deval_pk f W) (fun x => obind (deval_pk g W) (fun y => until_op x y))
+  | OnceT b e f => obind (deval_pk f W) (fun s => once_timed_op s (zb b) (zb e))
+  | HistT b e f => obind (deval_pk f W) (fun s => hist_timed_op s (zb b) (zb e))
+  | EvT b e f => obind (deval_pk f W) (fun s => ev_timed_op s (zb b) (zb e))
+  | AlwT b e f => obind (deval_pk f W) (fun s => alw_timed_op s (zb b) (zb e))
+  | SinceT b e f g => obind (deval_pk f W) (fun x => obind (deval_pk g W) (fun y => since_timed_op x y (zb b) (zb e)))
+  | UntilT b e f g => obind (deval_pk f W) (fun x => obind (deval_pk g W) (fun y => until_timed_op x y (zb b) (zb e)))
   | _ => None
   end.
 
 
 End DenseVisitor.
+
+(* the STL visitor *)
+Definition deval {VS : Val} (AR : Arith VS) : formula -> list dsig -> option dsig := deval_pk AR (fun _ _ => PStd).
